@@ -197,8 +197,14 @@ def cut_points(prog, rep, ctx):
         rep.violation("CUT", fi.short, "_split_event call sites", f"{len(calls)} call sites (2 expected)", fi.loc(lp))
         return
     E1s, E1e = f"{e1}.timestamp", f"{e1}.timestamp + {e1}.duration"
-    after = [c for c in calls if norm(c.args[1]) in (E1e, f"{e1}.duration + {e1}.timestamp")]
-    before = [c for c in calls if norm(c.args[1]) == E1s]
+    from ..trace import deep as _deep
+
+    def _cut(c):
+        # a cut point held in a local that is bound once (e1_end = e1.timestamp + e1.duration) is that expression
+        return norm(_deep(c.args[1], fi, stop=(e1, e2))) if len(c.args) > 1 else ""
+
+    after = [c for c in calls if _cut(c) in (E1e, f"{e1}.duration + {e1}.timestamp")]
+    before = [c for c in calls if _cut(c) == E1s]
     ok = len(after) == 1 and len(before) == 1 and all(norm(c.args[0]) == e2 for c in calls)
     rep.check(ok, "CUT", fi.short, "cut points", f"_split_event({e2}, end of {e1}) and _split_event({e2}, start of {e1})", f"list two's event is cut at {[norm(c.args[1]) for c in calls]} (first args {[norm(c.args[0]) for c in calls]}): the kept piece would overlap list one or covered time is lost", fi.loc(lp), expected=[E1e, E1s], found=[norm(c.args[1]) for c in calls])
     if not ok:
